@@ -694,6 +694,18 @@ def install_proxy(*mods, keep_float64=True):
     return proxy
 
 
+def _np_bitwise_count(x, *a, **k):
+    """Population count of a symbolic id: the id is made concrete first (forks per bit, like every use as an index), then numpy's own
+    function runs - so the RESULT TYPE (uint8) is numpy's as well."""
+    from .values import SymBV
+    if isinstance(x, SymBV):
+        x = x.__index__()
+    return np.bitwise_count(x, *a, **k)
+
+
+if hasattr(np, "bitwise_count"):
+    _OVERRIDES["bitwise_count"] = _np_bitwise_count
+
 for _n, _h in (("isnan", _np_isnan), ("isinf", _np_isinf), ("isfinite", _np_isfinite), ("copyto", _np_copyto), ("putmask", _np_putmask),
                ("array_equal", _np_array_equal), ("nan_to_num", _np_nan_to_num), ("clip", _np_clip), ("nanmax", _np_nanmax),
                ("nanmin", _np_nanmin), ("nansum", _np_nansum), ("nanmean", _np_nanmean), ("where", _np_where), ("isclose", _np_isclose),
